@@ -178,7 +178,8 @@ def run_cases(out: Outcome, drv, items, verdict, what, classify=None, want_spec=
         small = case
         if len(out.violations) < 5:
             try:
-                small = shrink(drv, case, carriers, fails)
+                # (a long series is reported as it is: every shrinking step would re-run thousands of positions)
+                small = shrink(drv, case, carriers, fails) if len(case[SERIES_KEYS[case['fn']][0]]) <= 400 else copy.deepcopy(case)
             except Exception:  # noqa: BLE001
                 small = case
         (o2, a2), = evaluate(drv, [(small, *carriers)], want_spec=True)
